@@ -22,7 +22,7 @@ for d in sorted(glob.glob('/verif/seeded/*')):
             v = 'not by this property; CAUGHT by %s, whose statement names the changed function' % o
             other = '(%s quick tier; disposition in meta.json)' % o
         else:
-            v = 'NOT CAUGHT, by design: evaluation-order region (disposition in meta.json)'
+            v = 'NOT CAUGHT, by design (outside what the property prescribes; disposition in meta.json)'
     cut = lambda x, n: (x[:n] + '…') if len(x) > n else x
     print("| %s | %s | %s | %s | %s |" % (os.path.basename(d), cut((m.get('summary') or '').replace('|', '\\|').replace('\n', ' '), 230), cut((m.get('needs') or '').replace('|', '\\|').replace('\n', ' '), 200), v, ', '.join(checks) or other or '(see meta.json)'))
 
